@@ -216,6 +216,11 @@ fn gen_case(target: &str, seed: u64, idx: u64, rt: &tokio::runtime::Runtime, dir
 			if idx % 16 == 5 { let d = [4usize, 32, 128][(idx / 16 % 3) as usize]; return Case { bytes: format!("{}from_container filename=mem{}", "from_overlayed [ ".repeat(d), " ]".repeat(d)).into_bytes(), how: format!("nesting depth {d}"), coords: vec![] }; }
 			let s = *rng.pick(&VPLS); if idx % 5 == 0 { Case { bytes: s.as_bytes().to_vec(), how: "valid".into(), coords: vec![] } } else { Case { bytes: mutate_text(rng, s), how: "mutated text".into(), coords: vec![] } }
 		}
+		"mvt" if idx % 6 == 2 => { // a length field that announces far more than the tile holds
+			let t = crate::mvt::gen_tile_pub(rng); let mut b = crate::mvt::enc_tile(&t);
+			let ks: Vec<usize> = (0..b.len().saturating_sub(1)).filter(|i| matches!(b[*i], 0x0a | 0x12 | 0x1a | 0x22)).collect();
+			if let Some(k) = ks.get(rng.below(ks.len().max(1) as u64) as usize) { let bigs: [Vec<u8>; 3] = [vec![0xff, 0xff, 0xff, 0xff, 0x0f], vec![0xff, 0xff, 0xff, 0xff, 0xff, 0xff, 0xff, 0xff, 0x7f], vec![0x80, 0x80, 0x80, 0x80, 0x40]]; let big = rng.pick(&bigs).clone(); b.splice(k + 1..k + 2, big.iter().cloned()); }
+			Case { bytes: b, how: "huge length field".into(), coords: vec![] } }
 		"mvt" => { let t = crate::mvt::gen_tile_pub(rng); let b = crate::mvt::enc_tile(&t); if idx % 6 == 0 { Case { bytes: b, how: "valid".into(), coords: vec![] } } else if idx % 6 == 1 { Case { bytes: { let n = rng.below(60) as usize; rng.bytes(n) }, how: "random bytes".into(), coords: vec![] } } else { Case { bytes: mutate_bytes(rng, b), how: "mutated".into(), coords: vec![] } } }
 		"versatiles" => {
 			let tiles = small_tiles(rng);
@@ -269,6 +274,9 @@ fn execute(target: &str, case: &Case, rt: &tokio::runtime::Runtime, dir: &std::p
 			let v = b[0] % 10;
 			let files: Vec<(&str, &[u8])> = match v { 0 => vec![("1/2/3.png", b"x")], 1 => vec![("1/2/3.png", b"x"), ("1/2/4.pbf", b"y")], 2 => vec![("a/b/c.png", b"x")], 3 => vec![("1/2/3.png.gz", b"x"), ("1/2/4.png", b"y")], 4 => vec![("1/2/x.png", b"x")], 5 => vec![("300/1/1.png", b"x")], 6 => vec![("tiles.json", b"{\"a\":"), ("1/1/1.png", b"x")], 7 => vec![("1/2", b"x")], 8 => vec![], _ => vec![("1/2/3", b"x"), ("2/9/9.png", b"z")] };
 			std::fs::create_dir_all(&p).unwrap();
+			if b[1] % 4 == 0 { // a non-UTF-8 file name / directory name (legal on Linux)
+				use std::os::unix::ffi::OsStrExt; let d = p.join("9").join("9"); std::fs::create_dir_all(&d).unwrap();
+				let _ = std::fs::write(d.join(std::ffi::OsStr::from_bytes(b"\xff\xfe.png")), b"x"); if b[1] % 8 == 0 { let _ = std::fs::create_dir_all(p.join(std::ffi::OsStr::from_bytes(b"\xff"))); } }
 			for (n, d) in files { let f = p.join(n); std::fs::create_dir_all(f.parent().unwrap()).unwrap(); std::fs::write(f, d).unwrap(); }
 			match rt.block_on(get_reader(p.to_str().unwrap())) { Ok(r) => { lookups(r.as_ref()); "ok" } Err(_) => "err" }
 		}
